@@ -166,7 +166,7 @@ def loopEv (cfg : CfgEv α) (target : α) (orc : OracleEv α) : Nat → Nat → 
 def integrateEv (cfg : CfgEv α) (s : Sys α) (evs : List (Nat × α)) (kn : List α) (nEvents : Nat) (target : α) (orc : OracleEv α) (fuel : Nat) : OutEv α :=
   let b0 : Book α := { last := List.replicate nEvents none, events := evs }
   if s.crashed then { sys := s, book := b0, knots := kn, reqs := [], nestedReqs := [], guardExit := false, stopped := false, iters := 0 } else
-  if absC (target - s.tcur) < cfg.loop.eps then { sys := s, book := b0, knots := kn, reqs := [], nestedReqs := [], guardExit := true, stopped := false, iters := 0 } else
+  if absC (target - s.tcur) < cfg.loop.tolEps then { sys := s, book := b0, knots := kn, reqs := [], nestedReqs := [], guardExit := true, stopped := false, iters := 0 } else
   let st0 : Status := if s.status == 2 ∨ s.status == 3 ∨ s.status == 4 then 0 else s.status
   let dt2 := initialDt cfg.loop s target
   match allocSteps (target - s.tcur) dt2 with
